@@ -21,6 +21,8 @@ KINDS = {
     '#i1': (False, '#i1'), '.c1': (False, '.c1'), 'br/': (True, None), 'img': (True, None), 'ul': (False, None),
     'span.c2{w}': (False, '.c2'), 'li': (False, None), 'p{l1\nl2}': (False, None),
     'p{l1\rl2}': (False, None),          # text lines separated by a lone CR are lines too
+    'p{\nl2}': (False, None),             # text that opens with its only line break
+    '{n: ${0}}': (False, None), 'em{i ${0}}': (False, None),      # text that ends with the field its children replace
     # text-only nodes whose children are written in place of the first field (clause (i) only)
     '{a ${0} b}': (False, None), '{[${0}${1:f}]}': (False, None),
 }
